@@ -116,6 +116,7 @@ type Plan struct {
 	// (NTP corrections, VM resume) by some of the advance operations
 	WallSteps bool `json:"wall_steps,omitempty"`
 	Padded    bool `json:"padded,omitempty"` // see uni
+	Fine      bool `json:"fine,omitempty"`   // r_ms / d_ms count units of 50 microseconds: timeouts below and between whole milliseconds
 	Scribble  int  `json:"scribble,omitempty"`
 	Ops       []Op `json:"ops"`
 }
@@ -185,6 +186,7 @@ func Generate(r *rand.Rand, profile string, concurrent bool) *Plan {
 	p.Tick = r.IntN(3) == 0
 	p.WallSteps = !concurrent && r.IntN(4) == 0
 	p.Padded = r.IntN(5) == 0
+	p.Fine = r.IntN(6) == 0
 	if !concurrent && r.IntN(3) == 0 {
 		p.Alias = true
 		p.Scribble = r.IntN(3) // 0 never
@@ -931,7 +933,11 @@ func (s *sim) run(src *simkit.Source, logOn bool) {
 	src.Segment(0)
 	s.opIdx = -1
 	list := names(p.Init)
-	mo := &model{list: list, r: time.Duration(p.RMs) * time.Millisecond, d: time.Duration(p.DMs) * time.Millisecond}
+	unit := time.Millisecond
+	if p.Fine {
+		unit = 50 * time.Microsecond // 10 -> 0.5 ms, 20 -> 1 ms, 50 -> 2.5 ms, 70 -> 3.5 ms
+	}
+	mo := &model{list: list, r: time.Duration(p.RMs) * unit, d: time.Duration(p.DMs) * unit}
 	s.mo = mo
 	var err error
 	// The options object is the caller's: once the constructor has returned the
